@@ -19,6 +19,7 @@ import traceback
 from pmc import world
 
 VERIF = world.VERIF
+sys.set_int_max_str_digits(0)
 # checks against a scratch copy (VERIF_REPO) must not touch /verif/evidence
 OUT = os.environ.get('VERIF_OUT', VERIF)
 NPROC = int(os.environ.get('VERIF_NPROC', '16'))
@@ -308,6 +309,8 @@ def finish(mod, tier, seed, tasks, results, t0, only_partial=False):
     byfn = collections.Counter(v['case']['fn'] + ':' + str(v['case']['args'].get('kind', ''))
                                if isinstance(v['case'], dict) else '?' for v in new_violations)
     print('  violations by case kind: %s' % dict(byfn))
+    # smallest counterexample first
+    new_violations.sort(key=lambda v: len(json.dumps(_j(v['case']))))
     shown = set()
     ordered = []
     for v in new_violations:  # one of each kind first
